@@ -349,6 +349,9 @@ func (tr *Addition) Add(write func(w *Writer) error) error {
 	if wr.minUpdateIndex < tr.nextUpdateIndex {
 		return ErrLockFailure
 	}
+	if wr.maxUpdateIndex < wr.minUpdateIndex {
+		return fmt.Errorf("reftable: table has update index range [%d, %d]", wr.minUpdateIndex, wr.maxUpdateIndex)
+	}
 
 	if err := tr.stack.checkAddition(tab.Name()); err != nil {
 		return err
